@@ -13,12 +13,13 @@ def main(tier):
             "ir_data.py) is JSON-native, an int-derived enum, or has a conversion branch in both _to_dict and "
             "_from_dict; every annotation has a shape the field-spec builder understands; unset is tested with "
             "`is not None` in both directions (R-SERIALTYPES); SourceLocation.from_str strips the flag characters "
-            "__str__ appends, in reverse order, with the same flag/character mapping (R-SRCLOC); embossc reaches "
+            "__str__ appends, in reverse order, with the same flag/character mapping (R-SRCLOC), and no other function encodes the flags with one suffix dependent on the other flag being clear or with different characters (R-LOCENCODE, scan of every function that reads a flag and holds a flag character); embossc reaches "
             "parsing and generation only through the entry points the split drivers use, with the identical Config "
             "construction, and the split drivers are connected by IrDataSerializer(ir).to_json() / "
             "from_json(ir_data.EmbossIr, ...) (R-DRIVERS). Not decided: equality of arbitrary IRs after a round trip."))
     r, s = cx.repo, cx.schema
     chk.run("R-SERIALTYPES", R.serialtypes, r, s, floor=40, control=lambda: R.control(r))
     chk.run("R-SRCLOC", R.srcloc, r, floor=4)
+    chk.run("R-LOCENCODE", R.locencode, r, floor=1)
     chk.run("R-DRIVERS", R.drivers, r, floor=6)
     return chk.finish()
